@@ -23,8 +23,9 @@ RULE = ('corpus; random histories of 5-40 safe operations (add/sub/neg/mul/div/s
         'compile probes (extra_checks); non-trivial = width>0; distinct by case hash')
 TRUSTED = ['rustc const-evaluation of associated consts mentioned in monomorphised bodies (observed directly by the compile probes)',
            'DefaultHasher collisions between unequal limb arrays are ignored (2^-64)']
-ASSUMPTIONS = ['operations owned by other properties (mul, div, shifts, bit ops, pow, modular ops, gcd) enter the history model at value level '
-               '(their limb-level models/theorems belong to C02/C03/C05/C06/C10/C12/C13)']
+ASSUMPTIONS = ['all 47 history operations run their own models (limb-level for add/sub/mul/div/rem/shifts/bit ops/add_mod/mul_mod/npow2, '
+               'value-level L2 for gcd and pow, whose results are re-encoded as canonical limbs); closure over them is the theorem run_canon, '
+               'each case by the producer\'s own specification theorem (C01/C02/C03/C05/C06/C07/C08/C10/C12/C13)']
 TIMEOUT = 1200
 
 
